@@ -28,7 +28,8 @@ def run(tier):
         raise AnalysisBroken('anchor derive_session_event vanished')
     fn = ix.functions['derive_session_event']
     rep.rule('R11.a', 'Discover upper header layout: station list starts at frame offset 36 with a 6-byte stride', floor=2)
-    rep.rule('R11.b', 'scan: index from 0 step 1 up to the count field; entry k is the six bytes at 36+6k, compared with the own address; early exit only on a match', floor=3)
+    rep.rule('R11.b', 'scan: the k-th iteration examines the six bytes at 36+6k, compared with the own address; early exit only on a match', floor=3)
+    rep.rule('R11.e', 'a not-acknowledging verdict is reached only after the scan covered every entry below the count field (up to the 240 entries the property quantifies over)', floor=1)
     rep.rule('R11.d', 'the session lookup the classifier relies on scans every slot and matches exactly (valid, mapper address, generation) - for all table contents', floor=3)
     rep.rule('R11.c', 'result table: Reset -> topology-wide iff real destination is broadcast; Hello -> hello; Discover -> acking/not, changed-seq iff a known session has another sequence number; everything else -> no event', floor=8)
     from .c16 import Ctx, check_find
@@ -72,21 +73,22 @@ def run(tier):
     E.tracked_preds = {'BC': [(('in', 'frame', 18 + i), C(0xFF)) for i in range(6)]}
     I, outs = run_entry(prog, AUTOMATA_UNIT, 'derive_session_event', setup, engine=E, tracked=(opc, cnt_t), name='derive_session_event')
     # (b) the scan loop
-    lids = [l for l in I.loop_info if l.startswith('derive_session_event#')]
+    # (the scan may live in derive_session_event or in a helper it was extracted into; the lookup is summarised, so
+    #  every loop interpreted here belongs to the classifier)
+    lids = sorted(I.loop_info)
     if not lids:
         rep.fail('R11.b', 'scan|no-loop', 'derive_session_event has no station-list scan', node=fn, function='derive_session_event')
     for lid in lids:
         info = I.loop_info[lid]
         k = ('sym', 'iter:' + lid, 0, INF)
         ind = info['induction']
-        rep.check(sorted(ind.values()) == [1], 'R11.b', 'scan|index', 'scan index does not advance by exactly 1 per entry (induction %s)' % ind, node=fn, function='derive_session_event')
+        # (no demand on how the loop counts - index, countdown, cursor: entry k is located through the iteration number k)
         nmatch = 0
         for kind, trace, st in info['iter_states'] or []:
             pairs = match_pairs(st, k)
             flag = flag_value(st, lid)
-            if kind == 'return':
-                rep.fail('R11.b', 'scan|early-return', 'the scan returns from inside the loop', node=fn, function='derive_session_event')
-                continue
+            stops = kind in ('break', 'return')       # leaving by return (scan in a helper, or a direct verdict) is as good as break:
+            #                                            what the verdict is, the result table (R11.c) decides
             fterm = flag_term(st, lid)
             got = sorted((p[0], p[1], p[2]) for p in pairs)
             want6 = [(j, 6, 36 + j) for j in range(6)]
@@ -96,7 +98,7 @@ def run(tier):
                           'a match of entry k compares (own-address byte, k coefficient, constant offset) %s; expected byte j with frame[36 + 6k + j] for j = 0..5' % got,
                           node=fn, function='derive_session_event', sample={'match_pairs': got})
                 # a matching entry must end the scan as "acknowledging": by break, or by setting the flag the loop tests
-                rep.check(kind == 'break' or flag == 1, 'R11.b', 'scan|match-sets-flag',
+                rep.check(stops or flag == 1, 'R11.b', 'scan|match-sets-flag',
                           'entry k equals the own address but the scan neither stops nor records it (flag %s)' % flag, node=fn, function='derive_session_event')
             elif fterm is not None and fterm[0] == 'eq':
                 # the flag is assigned the comparison itself: flag <=> (remaining bytes equal) under the equalities already established
@@ -108,8 +110,8 @@ def run(tier):
                           node=fn, function='derive_session_event', sample={'match_pairs': got, 'flag_is': short(fterm)})
             elif pairs or any_mismatch(st, k):
                 # a non-matching entry must not be recorded as a match
-                rep.check(kind != 'break' and flag != 1, 'R11.b', 'scan|mismatch-keeps-flag',
-                          'entry k differs from the own address but the scan %s' % ('stops' if kind == 'break' else 'records a match'), node=fn, function='derive_session_event')
+                rep.check(not stops and flag != 1, 'R11.b', 'scan|mismatch-keeps-flag',
+                          'entry k differs from the own address but the scan %s' % ('stops' if stops else 'records a match'), node=fn, function='derive_session_event')
             else:
                 rep.ok('R11.b')
         rep.check(nmatch > 0, 'R11.b', 'scan|never-matches', 'no iteration of the scan compares an entry with the own address', node=fn, function='derive_session_event')
@@ -166,6 +168,12 @@ def run(tier):
                 exp = {False: S['noack'], True: S['noack_chgd'], None: None}[changed]
                 rep.check(exp is not None and r == exp, 'R11.c', 'table|discover-noack', 'a Discover whose non-empty list does not contain the own address (known session %s, changed sequence %s) yields %d, expected %s'
                           % (known, changed, r, exp), node=fn, function='derive_session_event', sample=desc)
+                # "does not contain it" is only established when every entry was looked at: the scan ended at index >= count
+                # (or >= 240, the largest list the property speaks of - a frame-capacity clamp beyond that is acceptable)
+                covered = any(st.prove_le(cnt, kk) or st.prove_le(C(240), kk) for kk in [('sym', 'iter:' + l_, 0, INF) for l_ in I.loop_info])
+                rep.check(covered, 'R11.e', 'scan|coverage', 'a Discover is classified as not acknowledging after a scan that is not known to have reached the end of the list '
+                          '(entries examined: index < %s; count field %s): the own address further down the list is missed'
+                          % ([repr(st.dom(('sym', 'iter:' + l_, 0, INF))) for l_ in I.loop_info], st.dom(cnt)), node=fn, function='derive_session_event')
             elif empty:
                 rep.check(r in (S['acking'], S['acking_chgd'], S['noack'], S['noack_chgd']), 'R11.c', 'table|discover-empty', 'Discover with an empty list yields %d' % r, node=fn,
                           function='derive_session_event')
